@@ -278,3 +278,24 @@ Fixpoint c6_joint (s : c6_state) (m : sm_state) (tr : list N) : option (c6_state
   end.
 Definition c6_env (tr : list N) : bool :=
   match c6_joint c6_init sm_init tr with Some _ => true | None => false end.
+
+(* ---- stimuli (for examples and for exhaustive single-transaction sweeps of the regenerated netlist) ---- *)
+Definition c6_cyc (act val dat addr sp : N) : N := act + 2 * val + 4 * dat + 1024 * addr + 131072 * sp.
+Definition c6_pkt (bytes : list N) (addr sp : N) : list N :=
+  c6_cyc 1 0 0 addr sp :: map (fun b => c6_cyc 1 1 b addr sp) bytes.
+Definition c6_idle (n : nat) (addr sp : N) : list N := repeat (c6_cyc 0 0 0 addr sp) n.
+(* a data packet: PID byte, payload, CRC16 little-endian (xor an error mask) *)
+Definition data_bytes (pid : N) (pl : list N) (err : N) : list N :=
+  let c := N.lxor (crc16_usb pl) err in pid :: pl ++ [N.land c 255; N.shiftr c 8].
+Definition setup_token00 : list N := [45; 0; 16].                  (* SETUP, address 0, endpoint 0, CRC5 *)
+Definition ref_setup : list N := [128; 6; 0; 1; 0; 0; 64; 0].      (* GET_DESCRIPTOR(DEVICE), wLength 64 *)
+(* one complete SETUP transaction to address 0 / endpoint 0 with payload pl, CRC error mask err, then idle *)
+Definition setup_txn (pl : list N) (err sp : N) : list N :=
+  c6_idle 1 0 sp ++ c6_pkt setup_token00 0 sp ++ c6_idle 2 0 sp ++ c6_pkt (data_bytes 195 pl err) 0 sp ++ c6_idle 16 0 sp.
+(* sweep index x (11 bits): byte number x / 256 of the reference payload replaced by x mod 256 *)
+Definition sweep_setup_byte (sp : N) (x : N) : list N :=
+  setup_txn (upd ref_setup (N.to_nat (N.shiftr x 8)) (N.land x 255)) 0 sp.
+(* sweep index x (4 bits): CRC bit x flipped *)
+Definition sweep_setup_crcflip (sp : N) (x : N) : list N := setup_txn ref_setup (N.shiftl 1 x) sp.
+Definition c6_sweep_eq (gstep : N -> N -> N * N) (ginit : N) (w : nat) (mk : N -> list N) : bool :=
+  forall_bits w (fun x => list_eqb (run gstep ginit (mk x)) (run (c6_step true true) c6_init (mk x))).
